@@ -244,6 +244,118 @@ def extrude_config(h):
             h.zero('top vertex %d z' % a, Pw[2, tw[a + 3, 0]] - z[0, 1])
 
 
+def to_meshtet_config(h, kind, ncells):
+    """MeshHex1/MeshWedge1.to_meshtet on parallelepipeds / triangular prisms with symbolic origin and edge vectors: every tetrahedron
+    uses vertices of one parent, the volumes add up to the parent's, the split is conforming (boundary triangle count)."""
+    import skfem as S
+    with warnings.catch_warnings():
+        warnings.simplefilter('ignore')
+        o = h.sym('o', (3,), nominal=np.array([0.125, -0.25, 0.375]))
+        E = h.sym('e', (3, 3), nominal=np.array([[1.0, 0.125, 0.0625], [0.1875, 0.875, -0.125], [0.0625, 0.25, 1.125]]))
+        if h.sym_mode:
+            h.assume(tosym(det_obj(E)) != 0)
+        if kind == 'hex':
+            R = np.asarray(S.MeshHex1.elem.refdom.p, dtype=float)
+            cells = [R] if ncells == 1 else [R, R + np.array([[1.0], [0.0], [0.0]])]
+        else:
+            R = np.asarray(S.MeshWedge1.elem.refdom.p, dtype=float)
+            cells = [R] if ncells == 1 else [R, R + np.array([[0.0], [0.0], [1.0]])]
+        pts = {}
+        tcols = []
+        for C in cells:
+            col = []
+            for a in range(C.shape[1]):
+                key = tuple(C[:, a].tolist())
+                if key not in pts:
+                    pts[key] = len(pts)
+                col.append(pts[key])
+            tcols.append(col)
+        keys = sorted(pts, key=lambda k_: pts[k_])
+        P = np.empty((3, len(keys)), dtype=object if h.sym_mode else float)
+        for j, key in enumerate(keys):
+            for i in range(3):
+                # x = o + E @ reference coordinates  (columns of E are the edge vectors)
+                P[i, j] = o[i] + sum(E[i, k] * key[k] for k in range(3))
+        t = np.array(tcols, dtype=np.int64).T
+        m = (S.MeshHex1 if kind == 'hex' else S.MeshWedge1)(P, t)
+        M = m.to_meshtet()
+        tM = np.asarray(M.t)
+        nper = 6 if kind == 'hex' else 3
+        h.sample(dict(kind=kind, cells=ncells, tets=int(tM.shape[1])))
+        h.concrete('tetrahedron count', tM.shape[1] == nper * ncells)
+        h.concrete('coordinates untouched', M.doflocs.shape == P.shape and all((a is b) or (h.sym_mode and tosym(a).a.eq(tosym(b).a)) or (not h.sym_mode and a == b)
+                                                                                for a, b in zip(np.asarray(M.doflocs).ravel(), P.ravel())))
+        tv = np.asarray(m.t)
+        dE = det_obj(E)
+        for K in range(ncells):
+            ch = [c for c in range(tM.shape[1]) if set(tM[:, c].tolist()) <= set(tv[:, K].tolist()) and
+                  all(not (set(tM[:, c].tolist()) <= set(tv[:, K2].tolist())) for K2 in range(ncells) if K2 != K)]
+            h.concrete('cell %d is split into %d tetrahedra' % (K, nper), len(ch) == nper, str(ch))
+            tot = 0
+            for c in ch:
+                d = simplex_det(M.doflocs, tM[:, c])
+                tot = tot + d * d           # compared through squares: |d| = |det E| / 6 * k_c is not constant per tet in general
+            # volumes: sum of |det| == 6 vol(parent) = 6 |det E| (hex) or 3 |det E| (prism, half of the parallelepiped)
+            s_ = 0
+            for c in ch:
+                d = simplex_det(M.doflocs, tM[:, c])
+                s_ = s_ + (d if bool(d * dE > 0) else -d)
+            h.zero('volumes of the tetrahedra of cell %d add up to its volume' % K, s_ - (6 if kind == 'hex' else 3) * dE)
+        nbf = len(np.asarray(m.boundary_facets()))
+        fcount = 0
+        fm = np.asarray(m.facets)
+        for f in np.asarray(m.boundary_facets()):
+            fcount += 2 if len(set(fm[:, f].tolist())) == 4 else 1
+        h.concrete('conforming split: boundary triangles == 2 per quadrilateral face + 1 per triangular face',
+                   len(np.asarray(M.boundary_facets())) == fcount, '%d vs %d' % (len(np.asarray(M.boundary_facets())), fcount))
+
+
+def trace_config(h, mesh):
+    """Mesh.trace: the lower-dimensional mesh has, cell by cell and slot by slot, the vertices of the selected facets."""
+    import skfem as S
+    with warnings.catch_warnings():
+        warnings.simplefilter('ignore')
+        m = make_mesh(h, mesh)
+        P = m.doflocs
+        fac = np.asarray(m.facets)
+        sel = np.asarray(m.boundary_facets())[::-1].copy()
+        mtype = {2: S.MeshLine1, 3: S.MeshTri1}[P.shape[0]]
+        tr, facets = m.trace(sel.astype(np.int32), mtype=mtype, project=lambda p: p[:1] if P.shape[0] == 2 else p[:2])
+        h.concrete('returned facets == selection', np.array_equal(np.asarray(facets), sel))
+        tt = np.asarray(tr.t)
+        h.concrete('one cell per selected facet', tt.shape[1] == len(sel))
+        for k in range(tt.shape[1]):
+            got = {tosym(tr.doflocs[0, v]).a.get_id() if h.sym_mode else round(float(tr.doflocs[0, v]), 12) for v in tt[:, k]}
+            want = {tosym(P[0, v]).a.get_id() if h.sym_mode else round(float(P[0, v]), 12) for v in fac[:, sel[k]]}
+            h.concrete('trace cell %d has the vertices of facet %d' % (k, sel[k]), got == want)
+        t_ = h.sym('t', ())
+        h.zero('trivial', t_ - t_)
+
+
+def composition_config(h, mesh, order):
+    """restrict and refine composed in both orders: tags still designate the same regions (C12 obligations on each step)."""
+    from checks.c12 import analyse
+    with warnings.catch_warnings():
+        warnings.simplefilter('ignore')
+        m = tagged(make_mesh(h, mesh), {'s0': [0], 's1': [1]}, None)
+        names = [tosym(x).a.decl().name() for x in m.doflocs.ravel()] if h.sym_mode else []
+        h.sample(dict(mesh=mesh, order=order))
+        if order == 'restrict-refine':
+            mr = m.restrict(np.array([1, 0], dtype=np.int32))
+            M = mr.refined(1)
+            analyse(h, 'restrict;refine', mr, M, 1, names)
+            h.concrete('names survive', sorted(M.subdomains) == ['s0', 's1'])
+        else:
+            M1 = m.refined(1)
+            ch1 = np.asarray(M1.subdomains['s1'])
+            M = M1.restrict(ch1.astype(np.int32))
+            W, parent, children = analyse(h, 'refine', m, M1, 1, names)
+            h.concrete('restricting the refined mesh to a named subdomain keeps exactly the children of its cells',
+                       sorted(ch1.tolist()) == sorted(children[1]) and np.asarray(M.t).shape[1] == len(children[1]))
+            h.concrete('the other name is emptied, not re-pointed', len(np.asarray(M.subdomains['s0'])) == 0 and
+                       sorted(np.asarray(M.subdomains['s1']).tolist()) == list(range(len(children[1]))))
+
+
 def cellsels(n, quick, rng):
     out = []
     for r in range(1, n + 1):
@@ -284,6 +396,14 @@ def build_configs(tier, seed):
             add('to_meshtri/style=%s/shift=%d%d' % (style, r0, r1), split_config, mesh='quad2', style=style, pt=shifted('quad2', (r0, r1)),
                 sub={'s0': [0], 's1': [1]}, bnd={'b%d' % f: [f] for f in range(7)})
     add('extrude/tri1xline', extrude_config)
+    for kind in ('hex', 'wedge'):
+        for n in (1, 2):
+            add('to_meshtet/%s/cells=%d' % (kind, n), to_meshtet_config, kind=kind, ncells=n, timeout=900 if quick else 3000)
+    add('trace/tri2', trace_config, mesh='tri2')
+    add('trace/tet2', trace_config, mesh='tet2')
+    for order in ('restrict-refine', 'refine-restrict'):
+        add('composition/tri2/%s' % order, composition_config, mesh='tri2', order=order)
+        add('composition/quad2/%s' % order, composition_config, mesh='quad2', order=order)
     return cfgs
 
 
@@ -298,7 +418,7 @@ META = dict(
     bounds=dict(restrict='ALL ordered selections (sorted and unsorted) of the cells of 2-3 cell meshes with tags on every cell subset and every facet',
                 split='quadrilateral pairs in 3 (thorough 16) cyclic shifts, both styles'),
     outside=['__add__/__matmul__/remove_duplicate_nodes (byte-wise np.unique on coordinates has no meaning on symbolic values)',
-             'to_meshtet of hexahedra/prisms, trace(), compositions of two operations (not built)'],
+             'to_meshtet volume identity on general (non-parallelepiped) hexahedra', 'compositions beyond restrict/refine'],
     stubs=[],
     assumptions=['mesh validity'],
     design_ref='DESIGN.md 4/C18',
